@@ -880,8 +880,16 @@ class SymEval:
         conds = []
         for g in e.generators:
             it = self.eval(g.iter, frame)
+            inherited = ()
+            if it[0] == "comp" and it[1] in ("list", "gen") and len(it[3]) == 1 and it[2][0] == "elem" and it[2][1] == it[3][0][1]:
+                # iterating over `[x for x in A if c(x)]` is iterating over A under c(x)
+                inner_elem, inner_conds, it = it[2], it[4], it[3][0][1]
+                inherited = tuple(T.subst(c, {inner_elem: ("elem", it, cid)}) for c in inner_conds)
             self.assign(g.target, ("elem", it, cid), frame, e)
             gens.append((_dotted(g.target) or ast.unparse(g.target), it))
+            for ct in inherited:
+                conds.append(ct)
+                self.live = T.mk_and([self.live, ct])
             for c in g.ifs:
                 ct = self.eval(c, frame)
                 conds.append(ct)
@@ -1176,9 +1184,16 @@ class SymEval:
         for p, d in zip(a.kwonlyargs, a.kw_defaults):
             if p.arg not in env:
                 env[p.arg] = self.eval(d, c.frame) if d is not None else T.sym(f"?{p.arg}")
-        sub = Frame(c.qualname, c.frame.module, c.frame.cls, env, parent=c.frame)
+        known = _known_api()
+        as_helper = bool(known) and c.kind == "def" and c.qualname not in known and frame is not None and len(self.helper_stack) < 3 \
+            and c.qualname not in self.helper_stack and not c.qualname.endswith(">")
+        sub = Frame(frame.func if as_helper else c.qualname, c.frame.module, c.frame.cls, env, parent=c.frame)
+        sub.is_helper = as_helper
         live0 = self.live
-        self.depth += 1
+        if as_helper:
+            self.helper_stack.append(c.qualname)
+        else:
+            self.depth += 1
         try:
             if c.kind == "lambda":
                 r = self.eval(fn.body, sub)
@@ -1186,8 +1201,11 @@ class SymEval:
                 self.exec_block(fn.body, sub)
                 r = merge_returns(sub.returns)
         finally:
-            self.depth -= 1
-        self.live = live0
+            if as_helper:
+                self.helper_stack.pop()
+            else:
+                self.depth -= 1
+        self.live = live0 if sub.raised == T.FALSE else T.mk_and([live0, T.mk_not(sub.raised)])
         return r
 
     # ------------------------------------------------------------------ interpreted library functions
